@@ -180,6 +180,91 @@ class Single:
         return options[0]
 
 
+class Race:
+    """Atomicity-violation directed: thread A is stopped right before it reads a shared attribute
+    for the second time within a few lines (check-then-act), thread B -- held back at an earlier
+    operation boundary until then -- runs until it has passed a store to that attribute, then A
+    goes on.  The plan comes from a dry run of the same case and names places, not step numbers
+    (A: the n-th arrival at a source line; B: its k-th operation boundary, then the first arrival
+    at the storing line), because B's path depends on what the others did meanwhile.  Everything
+    else runs as under `Single` with d = 0."""
+
+    name = "race"
+
+    def __init__(self, rng, plan):
+        self.rng = rng
+        self.plan = plan
+        self.phase = 0 if plan else 3
+        self.fire = None
+        self.cnt = {}
+        self.b_held = False
+        self.b_passed = False
+        if plan:
+            self.a_site = tuple(plan["a_site"])
+            self.b_site = tuple(plan["b_site"])
+
+    def describe(self):
+        return {"policy": "race", "plan": self.plan}
+
+    def on_spawn(self, sim, t):
+        pass
+
+    def _held(self, sim, tid):
+        return self.phase == 0 and self.b_held and tid == self.plan["B"]
+
+    def want_switch(self, sim):
+        if self.phase >= 2:
+            return False
+        p = self.plan
+        cur = sim.threads[sim.current]
+        site = cur.last_site
+        if self.phase == 0:
+            if cur.tid == p["A"] and site == self.a_site:
+                n = self.cnt.get("a", 0) + 1
+                self.cnt["a"] = n
+                if n == p["a_occ"]:
+                    self.phase = 1
+                    self.fire = p["B"]
+                    return True
+            elif cur.tid == p["B"]:
+                if site == "op":
+                    n = self.cnt.get("b", 0) + 1
+                    self.cnt["b"] = n
+                    if n >= p["hold_op"]:
+                        self.b_held = True
+                if self.b_held:
+                    self.fire = p["A"]
+                    return True
+            return False
+        if cur.tid == p["B"]:
+            if self.b_passed:
+                self.phase = 2
+                self.fire = p["A"]
+                return True
+            if site == self.b_site:
+                self.b_passed = True
+        return False
+
+    def choose(self, sim, me, options, forced):
+        fire, self.fire = self.fire, None
+        if fire is not None and fire in options:
+            return fire
+        if fire is not None:
+            others = [o for o in options if o >= 0 and o != me and not self._held(sim, o)]
+            if others:
+                return others[int(self.rng.random() * len(others))]
+        if not forced and me in options:
+            return me
+        run = [o for o in options if o >= 0]
+        if self.phase == 1 and self.plan["B"] in run:
+            return self.plan["B"]
+        free = [o for o in run if not self._held(sim, o)]
+        pick = free or run
+        if pick:
+            return pick[int(self.rng.random() * len(pick))]
+        return options[0]
+
+
 class Scripted:
     """Replays a recorded decision list.  strict: any mismatch is a divergence.
     lenient: invalid / missing decisions fall back to 'continue, else lowest tid,
@@ -278,6 +363,7 @@ class Sim:
             "forced_fair": 0, "threads": 0, "helper_threads": 0,
         }
         self.want_trace_files = None
+        self.trace = None  # when a list: (tid, own yield count, kind, site, thread kind) of every yield point
         self.on_event = None  # callback(seq, tid, kind, detail) run atomically
 
     # -- logging -----------------------------------------------------------
@@ -517,6 +603,8 @@ class Sim:
             self.sites_hit.add(site)
         else:
             me.last_site = kind
+        if self.trace is not None:
+            self.trace.append((me.tid, me.yields, kind, site, me.kind))
         if me.kind == "client":
             self.timer_fires_row = 0
         if self.step > self.max_steps:
